@@ -1,8 +1,10 @@
 package converters
 
 import (
+	"errors"
 	"fmt"
 	"path/filepath"
+	"sync/atomic"
 
 	"github.com/spq/pkappa2/internal/index"
 	"github.com/spq/pkappa2/internal/tools/bitmask"
@@ -12,6 +14,11 @@ type (
 	CachedConverter struct {
 		converter *Converter
 		cacheFile *cacheFile
+		// set once the converter was removed from the service. Whoever still
+		// holds it (a view, a converter job in flight) must not store results
+		// any more: nobody invalidates them, and the cache file may by now
+		// belong to a converter of the same name that was added later.
+		removed atomic.Bool
 	}
 	Statistics struct {
 		Name              string
@@ -67,11 +74,20 @@ func (cache *CachedConverter) Reset() error {
 	return cache.cacheFile.Reset()
 }
 
+// Remove resets the converter and stops it from caching results from now on.
+func (cache *CachedConverter) Remove() error {
+	cache.removed.Store(true)
+	return cache.Reset()
+}
+
 func (cache *CachedConverter) Contains(streamID uint64) bool {
 	return cache.cacheFile.Contains(streamID)
 }
 
 func (cache *CachedConverter) Data(stream *index.Stream, moreDetails bool) (data []index.Data, clientBytes, serverBytes uint64, wasCached bool, err error) {
+	if cache.removed.Load() {
+		return nil, 0, 0, false, errors.New("converter was removed")
+	}
 	// See if the stream data is cached already.
 	data, clientBytes, serverBytes, err = cache.cacheFile.Data(stream)
 	if err != nil {
@@ -88,6 +104,9 @@ func (cache *CachedConverter) Data(stream *index.Stream, moreDetails bool) (data
 	}
 
 	// Save it to the cache.
+	if cache.removed.Load() {
+		return nil, 0, 0, false, errors.New("converter was removed while running")
+	}
 	if err := cache.cacheFile.SetData(stream, convertedPackets); err != nil {
 		return nil, 0, 0, false, err
 	}
